@@ -36,11 +36,12 @@ ASSUMPTIONS = [
     "(stackPure_false_in_general): cnf/dnf/intersection/union of Model/MarkerAlg.lean return the same value with and "
     "without the caller's detect_recursion frames whenever no membership test is answered by one of the caller's frames "
     "(cnf_stack_irrelevant etc., taint-tracking run of Model/ConcTaint.lean, induction over the whole mutual block); "
-    "memo_transparent_cnf_untainted / _dnf_untainted need no purity hypothesis beyond that. REMAINS: (a) the marker model "
+    "memo_transparent_cnf_untainted / _dnf_untainted / _parse_marker_untainted need no purity hypothesis beyond that. REMAINS: (a) the marker model "
     "is the code (C07's differential correspondence, sampling); (b) calls during which a caller's frame IS hit are outside "
     "the theorem — sampled here: every traced run counts such hits (`h1:foreign-frame-hit:*` in the distribution, 0 on "
     "this tree) and the permuted-order runs compare results; (c) _merge_single_markers takes no stack (pure in the model); "
-    "parse_marker's top-level union(...) is covered by union_stack_irrelevant but not restated for the context machine.",
+    "parse_marker, whose top-level union(...) sees the caller's frames, is covered by parse_marker_stack_irrelevant / "
+    "memo_transparent_parse_marker_untainted under the same taint-freeness.",
     "(H2) congruence of cache keys — PROVED for cnf, dnf, _merge_single_markers (keys compared by M.beq / Leaf.beq, C18: "
     "equal coherent markers are the same object) and for every cache keyed by a str (parse_marker, parse_constraint, "
     "generic parse_constraint / parse_extra_constraint, PEP440Parser.parse, parse_requirement: str equality is identity of "
